@@ -83,10 +83,18 @@ Subtables(F) ==
     [] F.cmapcfg = "4"    -> << F.cmap, F.cmap >>           \* (0,3) and (3,1), format 4
     [] F.cmapcfg = "12"   -> << F.cmap, F.cmap >>           \* (0,4) and (3,10), format 12
     [] F.cmapcfg = "4+12" -> << SelectSeq(F.cmap, LAMBDA e : e[1] < 65536), F.cmap >>   \* (3,1), (3,10)
+    [] F.cmapcfg = "4|12" -> << SelectSeq(F.cmap, LAMBDA e : e[1] < 65536),               \* (3,1): BMP only
+                                SelectSeq(F.cmap, LAMBDA e : e[1] >= 65536) >>            \* (3,10): astral only
 
 WellFormed(F) ==
   /\ F.n >= 1
   /\ F.kind \in {"ttf", "cff", "cid"}
+  /\ F.cmapcfg \in {"none", "4", "12", "4+12", "4|12"}
+  \* nameset only selects the concrete glyph names of the name tokens ("std": StandardEncoding names,
+  \* "expert": ExpertEncoding names); a simple CFF font without an Encoding means "standard encoding",
+  \* which maps such names -- those fonts state their encoding explicitly
+  /\ F.nameset \in {"plain", "std", "expert"}
+  /\ (F.kind = "cff" /\ F.nameset # "plain" => F.hasenc)
   /\ Len(F.out) = F.n /\ Len(F.w) = F.n /\ Len(F.name) = F.n
   /\ Len(F.cid) = F.n /\ Len(F.fd) = F.n /\ Len(F.comp) = F.n
   /\ Inj(F.w)
@@ -237,16 +245,14 @@ FailedOutlines(F, list, P) ==
 
 (***************************************************************************)
 (* Write + Read of the subset.  Outside the representable domain nothing    *)
-(* is demanded of Write:                                                    *)
-(*  - a simple CFF font can only store an encoding whose encoded glyphs are *)
-(*    1..k (CFF spec, Encoding formats 0/1; supplements only add codes to   *)
-(*    those glyphs);                                                        *)
-(*  - a TrueType font in which no glyph has an outline has an empty "glyf"  *)
-(*    table (whether that is a font at all is C01/C03's question).          *)
+(* is demanded of Write: a simple CFF font can only store an encoding whose *)
+(* encoded glyphs are 1..k (CFF spec, Encoding formats 0/1 give codes to    *)
+(* glyphs 1..k in order; supplements only add codes to those glyphs).       *)
+(* (A TrueType subset in which every glyph is blank IS demanded: an empty   *)
+(* "glyf" table is a valid table.)                                          *)
 (***************************************************************************)
 Writable(F, P) ==
-  /\ F.kind = "cff" => LET used == { e[2] : e \in ToSet(P.enc) } IN used = 1..Cardinality(used)
-  /\ F.kind = "ttf" => \E i \in 1..Len(P.glyphs) : P.glyphs[i].out # -3
+  F.kind = "cff" => LET used == { e[2] : e \in ToSet(P.enc) } IN used = 1..Cardinality(used)
 
 Same(P, Q) ==
   /\ Q.ok
